@@ -41,6 +41,9 @@ pub fn run(out: &mut Out, tier: &str, rng: &mut Rng) {
                 let mut s = session_frame(0x10, "h").bytes;
                 s.extend(sess::frame(*ty, &p));
                 s.extend(sess::frame(0x45, &[0x1E, 1]));
+                if v % 16 == 7 {
+                    sess::run_case_wfail(out, &inst, "sess", &[Ev::Bytes(s.clone()), Ev::Close(Close::Eof)], true);
+                }
                 sess::run_case(out, &inst, "sess", &[Ev::Bytes(s), Ev::Close(Close::Eof)], true);
                 out.count(&format!("byte-sweep type {:#x}", ty));
             }
